@@ -7,11 +7,11 @@ PROP = dict(
                   files={"zz_verif_fixture_test.go": "harness/main/fixture_test.go",
                          "zz_verif_c01_test.go": "harness/main/c01_test.go"},
                   timeout=900, timeout_thorough=2400, race=True)],
-    technique="Coq proof (refinement of createAllIndexes + server lookups to the archive content, composed with the compact-index and sig-exists interfaces) + differential execution of createAllIndexes/Epoch against the model on generated epochs",
-    level_text="Theorems (Coq, no axioms), for every header, object list, epoch: if the model of createAllIndexes reports success on a well-formed CAR then every object is fetched by CID with exactly its bytes, every block slot resolves to its CID and block time, every first signature resolves to its CID and is reported existing; the recorded (offset,size) of each object is its true position; 6+3-byte codec and block-time file round trips. The compact index and sig-exists enter through their proved interfaces (C04_found, C05 no-false-negative). Tie: generated epochs, among them one large epoch (about 48 000 objects and 45 000 transactions in the quick tier, twice that in the thorough tier: several buckets near the 10 000-entries target in the cid and the signature index, sealed concurrently), are indexed by the real createAllIndexes and read back through index readers and a loaded Epoch (file and HTTP ReaderAt); recorded offsets, codec bytes and block-time files are compared with the model by coqc.",
+    technique="Coq proof (refinement of createAllIndexes + server lookups to the archive content, composed with the compact-index and sig-exists interfaces) + differential execution of createAllIndexes/Epoch against the model on generated epochs + the Go codec functions themselves (indexes/uints.go, offset-and-size.go) translated on every run (GoLite) and proved equal to the model codec",
+    level_text="Theorems (Coq, no axioms), for every header, object list, epoch: if the model of createAllIndexes reports success on a well-formed CAR then every object is fetched by CID with exactly its bytes, every block slot resolves to its CID and block time, every first signature resolves to its CID and is reported existing; the recorded (offset,size) of each object is its true position; 6+3-byte codec and block-time file round trips. The compact index and sig-exists enter through their proved interfaces (C04_found, C05 no-false-negative). Tie: generated epochs, among them one large epoch (about 48 000 objects and 45 000 transactions in the quick tier, twice that in the thorough tier: several buckets near the 10 000-entries target in the cid and the signature index, sealed concurrently), are indexed by the real createAllIndexes and read back through index readers and a loaded Epoch (file and HTTP ReaderAt); recorded offsets, codec bytes and block-time files are compared with the model by coqc.; the index value codec functions (UintNtob/BtoUintN, OffsetAndSize.Bytes/FromBytes/IsValid) are translated from the Go source on every run and proved to be the model's enc_os/dec_os (C01_translated_* theorems)",
     level_note="Trusted: Coq kernel; hand-written model of cmd-x-index-all.go/epoch.go/indexes/blocktimeindex tied by correspondence; go-cid parser contract (good_cid), payload decoders as parameters (C11), file system, bufio. Partial: the five sealing goroutines' error propagation is modelled as 'any failing seal fails the run' (see known-findings for the shared err variable).",
     design_ref="5 (C01)",
-    trusted=["model C01_IndexAll.v/Car.v of cmd-x-index-all.go, carreader, indexes/offset-and-size.go, blocktimeindex, epoch.go (hand-written; tied by correspondence on generated epochs)",
+    trusted=['translator gen/golite.go (Go leaf functions -> terms of the GoLite fragment, re-run on every check) and the semantics coq/GoLite.v (fixed-width wrap-around, panics on bad index / slice / shift / division, fuel for loops and calls; capacity identified with length; out-parameters for slices written through; aliasing of two arguments not detected) - DESIGN.md section 10a; exercised by the vm_compute examples of the property file', "model C01_IndexAll.v/Car.v of cmd-x-index-all.go, carreader, indexes/offset-and-size.go, blocktimeindex, epoch.go (hand-written; tied by correspondence on generated epochs)",
              "go-cid CidFromReader contract: parses a CID that occurs in the CAR and returns its length",
              "payload decoders (kind byte, slot, blocktime, first signature) are parameters of the theorems"] + COMMON_TRUSTED,
     assumptions=["well-formed epoch CAR: distinct CIDs and slots, parsable CIDs", "epoch * 432000 + 432000 < 2^64", "compact index satisfies C04_found; sig-exists satisfies C05 no-false-negative"],
